@@ -3,6 +3,7 @@ package c09
 
 import (
 	"fmt"
+	"sort"
 	"time"
 
 	"github.com/protobom/protobom/pkg/sbom"
@@ -94,6 +95,17 @@ func Lists(thorough bool, variant string) []gen.ListSpec {
 		gen.EdgeLists(objs, 2, func(el []gen.EdgeSpec) {
 			out = append(out, gen.ListSpec{Nodes: idsC, Edges: el, Roots: []string{"a"}})
 		})
+	case "edge-types":
+		// one list per edge type number (declared and undeclared): the pair matrix unites every two types on one source
+		var ts []int
+		for t := range sbom.Edge_Type_name {
+			ts = append(ts, int(t))
+		}
+		ts = append(ts, -1, 45, 46, 64, 99, 1000, 1001)
+		sort.Ints(ts)
+		for _, t := range ts {
+			out = append(out, gen.ListSpec{Nodes: abc, Edges: []gen.EdgeSpec{{From: "a", Type: sbom.Edge_Type(t), To: []string{"b"}}, {From: "a", Type: sbom.Edge_Type(t), To: []string{"c", "b"}}}, Roots: []string{"a"}})
+		}
 	case "near-ids":
 		// identifiers that coincide under case folding or trimming: any index that normalises its keys merges them
 		ids := []string{"n", "N", "n "}
@@ -148,7 +160,7 @@ func Run(c *engine.Ctx) {
 		}
 	}
 
-	for _, fam := range []string{"collisions", "near-ids", "wide"} {
+	for _, fam := range []string{"collisions", "near-ids", "edge-types", "wide"} {
 		F := Lists(c.Thorough(), fam)
 		c.Group(fam)
 		c.Bound(fam, fmt.Sprintf("all %d x %d ordered pairs of the %s family", len(F), len(F), fam))
